@@ -319,6 +319,281 @@ fn run_threads(cx: &mut CaseCx, _case: &Value) {
   cx.outcome("keys across threads");
 }
 
+
+/// A key object that is REUSED: `dst.clone_from(&src)` must make `dst` the same value as `src.clone()`,
+/// whatever `dst` held before (more nodes, fewer nodes, another key). Every (source history, destination
+/// history) pair over a small domain, then every one-step continuation on the overwritten object.
+fn run_object_reuse(cx: &mut CaseCx, case: &Value) {
+  let dom: Vec<u8> = vec![0, 0x80, 0x40, 1, 3, 255];
+  let (g0, baseline) = setup_ggm(cx, 1);
+  if !check_baseline(cx, &baseline) {
+    return;
+  }
+  cx.entropy(2);
+  let other_key = GGM::setup();
+  // histories: all ordered sequences of length <= 2 over the domain
+  let mut hists: Vec<Vec<u8>> = vec![vec![]];
+  for &a in &dom {
+    hists.push(vec![a]);
+    for &b in &dom {
+      if a != b {
+        hists.push(vec![a, b]);
+      }
+    }
+  }
+  let si = case["src"].as_u64().unwrap() as usize;
+  let src_path = hists[si % hists.len()].clone();
+  let mut src = g0.clone();
+  for &x in &src_path {
+    let _ = src.puncture(&[x]);
+  }
+  let src_nodes = sorted_nodes(&src);
+  for (di, dst_path) in hists.iter().enumerate() {
+    for foreign in [false, true] {
+      if foreign && di % 4 != 0 {
+        continue;
+      }
+      let mut dst = if foreign { other_key.clone() } else { g0.clone() };
+      for &x in dst_path {
+        let _ = dst.puncture(&[x]);
+      }
+      // warm the destination with evaluations first (nothing of its old life may survive)
+      let _ = eval_all(&dst);
+      cx.eval();
+      if let Err(p) = guard(|| dst.clone_from(&src)) {
+        cx.viol("C10/object-reuse/clone_from-panicked", p, json!({"source_punctured": src_path, "destination_punctured": dst_path, "destination_other_key": foreign}));
+        continue;
+      }
+      let before = cx.viols.len();
+      check_state(cx, &dst, &src_path, &baseline, false);
+      if sorted_nodes(&dst) != src_nodes && cx.viols.len() == before {
+        cx.viol("C10/object-reuse/key-material-differs", "after dst.clone_from(&src) the destination retains other key material than the source", json!({"source_punctured": src_path, "destination_punctured": dst_path, "destination_other_key": foreign}));
+      }
+      cx.count("states", 1);
+      cx.count("transitions", 1);
+      // the source is untouched
+      if sorted_nodes(&src) != src_nodes {
+        cx.viol("C10/object-reuse/source-changed", "clone_from changed the source", json!({"source_punctured": src_path}));
+      }
+      // one-step continuations on the overwritten object
+      for &x in &dom {
+        if src_path.contains(&x) {
+          continue;
+        }
+        let mut d2 = dst.clone();
+        cx.eval();
+        if guard(|| d2.puncture(&[x]).is_ok()) != Ok(true) {
+          cx.viol("C10/puncture-refused", format!("puncturing {} on an object overwritten by clone_from failed", x), json!({"source_punctured": src_path, "destination_punctured": dst_path, "input": x}));
+          continue;
+        }
+        let mut p2 = src_path.clone();
+        p2.push(x);
+        check_state(cx, &d2, &p2, &baseline, false);
+        // ... and the continuation equals the same continuation on a plain clone of the source
+        let mut s2 = src.clone();
+        let _ = s2.puncture(&[x]);
+        if sorted_nodes(&s2) != sorted_nodes(&d2) && cx.viols.len() == before {
+          cx.viol("C10/object-reuse/key-material-differs", format!("after dst.clone_from(&src) and one puncture ({}) the destination retains other key material than src.clone() after the same puncture", x), json!({"source_punctured": src_path, "destination_punctured": dst_path, "destination_other_key": foreign, "then_puncture": x}));
+        }
+        cx.count("states", 1);
+        cx.count("transitions", 1);
+      }
+      for v in cx.viols.iter_mut().skip(before) {
+        if !v.key.starts_with("C10/object-reuse") {
+          v.key = format!("C10/object-reuse/{}", v.key.trim_start_matches("C10/"));
+          v.what = format!("key object overwritten with clone_from (destination had punctured {:?}{}; source had punctured {:?}): {}", dst_path, if foreign { " under another key" } else { "" }, src_path, v.what);
+        }
+      }
+      if cx.viols.len() > before {
+        return;
+      }
+    }
+  }
+  cx.nontrivial(fnv(&src_path) ^ si as u64);
+  cx.outcome("clone_from");
+  if si == 0 {
+    cx.sample(json!({"domain": dom, "histories": hists.len()}));
+  }
+}
+
+
+/// The same key after it has travelled: the puncturable key inside a `Server` is exported with the
+/// key-sync interface and imported into another server; the C10 invariant must hold on the key the
+/// importer now holds, and on every one-step continuation there.
+fn run_travelled_key(cx: &mut CaseCx, case: &Value) {
+  use super::c11::{export_bytes, import_into};
+  use ppoprf::ppoprf as pp;
+  cx.entropy(1);
+  let s0 = match pp::Server::new((0..=255u8).collect()) {
+    Ok(s) => s,
+    Err(_) => return,
+  };
+  let baseline = eval_all(s0.verif_pprf());
+  if !check_baseline(cx, &baseline) {
+    return;
+  }
+  let lo = case["lo"].as_u64().unwrap() as u8;
+  for a in lo..=lo.saturating_add(7) {
+    // histories: [a], [a, sibling], [a, cousin], [a, a+1], [a, !a], [a, 7, 9] ...
+    let mut hs: Vec<Vec<u8>> = vec![vec![a]];
+    for b in [a ^ 0x80, a ^ 0x40, a ^ 0x01, a.wrapping_add(1), !a, a.reverse_bits()] {
+      if b != a {
+        hs.push(vec![a, b]);
+      }
+    }
+    hs.push(vec![7u8, a, 9].into_iter().collect());
+    hs.push(vec![a, a.wrapping_add(64), a.wrapping_add(128), a.wrapping_add(192)]);
+    for h in hs {
+      let mut path: Vec<u8> = vec![];
+      let mut s = s0.clone();
+      for &x in &h {
+        if !path.contains(&x) && s.puncture(x).is_ok() {
+          path.push(x);
+        }
+      }
+      let bytes = match export_bytes(&s) {
+        Ok(b) => b,
+        Err(_) => continue,
+      };
+      for (who, mut target) in [("a fresh server", pp::Server::new(vec![9]).expect("server")), ("a follower holding the unpunctured key", s0.clone())] {
+        cx.eval();
+        if import_into(&mut target, &bytes).is_err() {
+          continue;
+        }
+        let before = cx.viols.len();
+        check_state(cx, target.verif_pprf(), &path, &baseline, false);
+        cx.count("states", 1);
+        cx.count("transitions", 1);
+        for x in [a.wrapping_add(2), a ^ 0x81, 255 - a] {
+          if path.contains(&x) || cx.viols.len() > before {
+            continue;
+          }
+          let mut t2 = target.clone();
+          if guard(|| t2.puncture(x).is_ok()) != Ok(true) {
+            cx.viol("C10/puncture-refused", format!("puncturing {} failed", x), json!({"punctured_in_order": path, "input": x}));
+            continue;
+          }
+          let mut p2 = path.clone();
+          p2.push(x);
+          check_state(cx, t2.verif_pprf(), &p2, &baseline, false);
+          cx.count("states", 1);
+          cx.count("transitions", 1);
+        }
+        for v in cx.viols.iter_mut().skip(before) {
+          v.key = format!("C10/travelled-key/{}", v.key.trim_start_matches("C10/"));
+          v.what = format!("key exported after puncturing {:?} and imported into {}: {}", path, who, v.what);
+        }
+        if cx.viols.len() > before {
+          return;
+        }
+      }
+      cx.nontrivial(fnv(&path));
+    }
+  }
+  cx.outcome("travelled key");
+  if lo == 0 {
+    cx.sample(json!({"first_input": lo, "histories_per_input": 9}));
+  }
+}
+
+
+/// every tree node (len 1..=8, prefix bits), in a fixed order: 2 + 4 + ... + 256 = 510 nodes
+pub fn all_nodes() -> Vec<Node> {
+  let mut v = vec![];
+  for len in 1..=8u8 {
+    for bits in 0..(1u32 << len) {
+      v.push(Node { len, bits: bits as u8 });
+    }
+  }
+  v
+}
+/// pairs of disjoint nodes from a small family: all nodes of depth <= 3 plus extreme / alternating leaves
+pub fn node_pairs() -> Vec<(Node, Node)> {
+  let mut fam: Vec<Node> = all_nodes().into_iter().filter(|n| n.len <= 3).collect();
+  for x in [0u8, 1, 2, 128, 254, 255, 85, 170] {
+    fam.push(Node { len: 8, bits: x });
+  }
+  fam.push(Node { len: 7, bits: 0 });
+  fam.push(Node { len: 7, bits: 127 });
+  let mut v = vec![];
+  for i in 0..fam.len() {
+    for j in i + 1..fam.len() {
+      let (a, b) = (fam[i], fam[j]);
+      let overlap = a.leaves().iter().any(|&x| b.covers(x));
+      if !overlap {
+        v.push((a, b));
+      }
+    }
+  }
+  v
+}
+
+/// The far end of the state space: keys that retain only ONE or TWO tree nodes (everything else punctured),
+/// reached in ascending and in descending order.
+fn run_cover_shapes(cx: &mut CaseCx, case: &Value) {
+  let (g0, baseline) = setup_ggm(cx, 1);
+  if !check_baseline(cx, &baseline) {
+    return;
+  }
+  let part = case["part"].as_u64().unwrap() as usize;
+  let parts = case["parts"].as_u64().unwrap() as usize;
+  let mut shapes: Vec<Vec<Node>> = all_nodes().into_iter().map(|n| vec![n]).collect();
+  shapes.extend(node_pairs().into_iter().map(|(a, b)| vec![a, b]));
+  for (si, shape) in shapes.iter().enumerate() {
+    if si % parts != part {
+      continue;
+    }
+    let live = |x: u8| shape.iter().any(|n| n.covers(x));
+    for descending in [false, true] {
+      if descending && si % 3 != 0 {
+        continue;
+      }
+      let mut order: Vec<u8> = (0..=255u8).filter(|&x| !live(x)).collect();
+      if descending {
+        order.reverse();
+      }
+      let mut g = g0.clone();
+      let mut ok = true;
+      for &x in &order {
+        if guard(|| g.puncture(&[x]).is_ok()) != Ok(true) {
+          cx.viol("C10/puncture-refused", format!("puncturing {} failed", x), json!({"keeping_only_nodes": format!("{:?}", shape), "input": x}));
+          ok = false;
+          break;
+        }
+      }
+      if !ok {
+        continue;
+      }
+      let before = cx.viols.len();
+      check_state(cx, &g, &order, &baseline, false);
+      // one more puncture inside the retained part
+      if let Some(x) = (0..=255u8).find(|&x| live(x)) {
+        let mut g2 = g.clone();
+        if g2.puncture(&[x]).is_ok() {
+          let mut o2 = order.clone();
+          o2.push(x);
+          check_state(cx, &g2, &o2, &baseline, false);
+        }
+      }
+      for v in cx.viols.iter_mut().skip(before) {
+        v.key = format!("C10/cover-shape/{}", v.key.trim_start_matches("C10/"));
+        v.what = format!("key that retains only the subtree(s) {:?} (all other inputs punctured in {} order): {}", shape, if descending { "descending" } else { "ascending" }, v.what);
+        v.detail = json!({"retained_subtrees": format!("{:?}", shape), "order": if descending { "descending" } else { "ascending" }, "punctures": order.len()});
+      }
+      cx.count("states", 2);
+      cx.count("transitions", order.len() as u64 + 1);
+      cx.nontrivial(fnv_str(&format!("{:?}|{}", shape, descending)));
+      if cx.viols.len() > before {
+        return;
+      }
+    }
+  }
+  cx.outcome("cover shapes");
+  if part == 0 {
+    cx.sample(json!({"single_node_shapes": 510, "two_node_shapes": node_pairs().len()}));
+  }
+}
+
 fn sequences() -> Vec<(&'static str, Vec<u8>)> {
   let asc: Vec<u8> = (0..=255u8).collect();
   let desc: Vec<u8> = (0..=255u8).rev().collect();
@@ -416,6 +691,27 @@ pub fn spec() -> PropSpec {
         gen: |_| vec![json!({})],
         run: run_threads,
         min_counts: &[("cross_thread_keys", 6)],
+      },
+      Check {
+        name: "object-reuse",
+        rule: "dst.clone_from(&src) for EVERY pair of histories (all ordered puncture sequences of length <= 2 over {0,0x80,0x40,1,3,255}: 37 x 37, destinations also under another key): the overwritten object satisfies the invariant of the SOURCE history over all 256 inputs and retains exactly the source's key material, the source is unchanged, and after every one-step continuation it equals src.clone() after the same step",
+        gen: |_| (0..37u64).map(|i| json!({"src": i})).collect(),
+        run: run_object_reuse,
+        min_counts: &[("states", 3000)],
+      },
+      Check {
+        name: "travelled-key",
+        rule: "serialise-then-use: for EVERY input a, nine puncture histories starting at a (alone; with its sibling, cousin, neighbours, complement, bit-reversal; inside a triple; a stride-64 quadruple) on the key inside a Server; the key state is exported (key-sync), imported into a fresh server and into a follower: the C10 invariant over all 256 inputs on the key the importer holds, and after each of three further punctures there",
+        gen: |_| (0..32u64).map(|i| json!({"lo": i * 8})).collect(),
+        run: run_travelled_key,
+        min_counts: &[("states", 10_000)],
+      },
+      Check {
+        name: "cover-shapes",
+        rule: "the sparse end of the state space: for EVERY tree node (510) and every disjoint pair from {all nodes of depth <= 3, the leaves 0,1,2,128,254,255,85,170, two depth-7 nodes} the key in which exactly those subtrees are still live (all other inputs punctured, ascending; every third also descending): the invariant over all 256 inputs, and again after one more puncture inside the live part",
+        gen: |_| (0..32u64).map(|i| json!({"part": i, "parts": 32})).collect(),
+        run: run_cover_shapes,
+        min_counts: &[("states", 1500)],
       },
       Check {
         name: "complete-sequences",
